@@ -333,12 +333,27 @@ def xd_pairs():
     return st.one_of(tie, tie, plain, plain, binary)
 
 
+PURITY_TEMPLATES = ['=ROUND(A1,B1)',
+                    '=ROUNDUP(A1,B1)',
+                    '=ROUNDDOWN(A1,B1)',
+                    '=TRUNC(A1,B1)',
+                    '=TRUNC(A1)',
+                    '=INT(A1)',
+                    '=MROUND(A1,B1)',
+                    '=CEILING(A1,B1)',
+                    '=FLOOR(A1,B1)',
+                    '=EVEN(A1)',
+                    '=ODD(A1)',
+                    '=MOD(A1,B1)']
+
+
 def shards(tier, seed):
     out = [dict(kind='grid'), dict(kind='sig-grid'), dict(kind='workbook')]
     n_h = 8 if tier == 'quick' else 16
     for k in range(n_h):
         out.append(dict(kind='hyp', seed=seed * 1000 + k,
                         n=1500 if tier == 'quick' else 25000))
+    out.append(dict(kind='purity'))
     return out
 
 
@@ -347,6 +362,9 @@ XS = [0, 1, 2, 3, 4, 5, 0.5, 1.5, 2.5, 3.5, 0.25, 2.75, 7, 10, 24.3, 6.7,
 
 
 def run_shard(shard, rec):
+    if shard['kind'] == 'purity':
+        from vlib import purity
+        return purity.run(rec, ID, PURITY_TEMPLATES)
     kind = shard['kind']
     ctx = Ctx(rec)
     if kind == 'grid':
@@ -412,6 +430,9 @@ def run_shard(shard, rec):
 
 
 def replay(case, rec):
+    from vlib import purity
+    if purity.is_case(case):
+        return purity.replay(rec, ID, case)
     if isinstance(case, list):
         ctx = Ctx(rec)
         a, b = case[1]
